@@ -16,7 +16,7 @@ import Biogo.Generated.Alphabets
 namespace Biogo.Drive.C01
 open Biogo.Wire Biogo.Go.Bytes Biogo.Drive.Seqio Biogo.Spec.Seqio
 
-def ops : List String := ["fa", "fq", "fap", "fva", "fvq", "fax", "fqx"]
+def ops : List String := ["fa", "fq", "fap", "fva", "fvq", "fax", "fqx", "fapx"]
 
 /-- what is demanded of a parsed observation: `ns` the counts the `Write` calls returned, `ds` the
     bytes each of them emitted (both as the harness prints them), `calls` the reader's call history
@@ -150,10 +150,12 @@ def faultVerdict (noPanic : Bool) (model obs : String) (tags : List String) : Ve
       | none => if model == obs then ok tags else diff (model.take 600).toString tags
     | _ => if model == obs then ok tags else diff (model.take 600).toString tags
 
-def handleFax (width : Nat) (typ alpha : String) (rs : List (Bytes × Bytes × Bytes × Bytes)) (obs : String) : Verdict :=
+def handleFax (width : Nat) (typ alpha : String) (rs : List (Bytes × Bytes × Bytes × Bytes)) (obs : String)
+    (fastaCfg : Biogo.Fasta.Cfg := fastaCfg) (userPrefixes : Bool := false) : Verdict :=
   let recs : List Biogo.Fasta.Rec := rs.map fun (n, d, l, _) => ⟨n, d, l⟩
   let tags := ["fasta", "failing-writer", "typ-" ++ typ, alpha, s!"recs{min recs.length 3}",
                if width ≤ 3 then "width1-3" else "width<4096"] ++ (if width ≥ 1 && !recs.isEmpty then ["nt"] else [])
+             ++ (if userPrefixes then ["user-prefixes"] else [])
   match Biogo.Fasta.writeAll { cfg := fastaCfg, width := width } {} recs with
   | .error p => if obs.startsWith "panic:" then ok ("expected-panic" :: tags) else diff ("panic:" ++ p.code) tags
   | .ok (sink, ns) => faultVerdict (width ≥ 1) (faultModel ns sink.bytes) obs tags
@@ -223,6 +225,10 @@ def handle (line : String) : String :=
       match parseNat width, parseRecs rest with
       | some w, some rs => handleFax w typ alpha rs obs
       | _, _ => bad "fax"
+    | "fapx" :: width :: idp :: sp :: typ :: alpha :: rest =>
+      match parseNat width, bytesOfHex idp, bytesOfHex sp, parseRecs rest with
+      | some w, some idp, some sp, some rs => handleFax w typ alpha rs obs { idPrefix := idp, seqPrefix := sp } true
+      | _, _, _, _ => bad "fapx"
     | "fqx" :: qid :: typ :: enc :: alpha :: rest =>
       match parseBool qid, encOfString enc, parseRecs rest with
       | some qid, some enc, some rs => handleFqx qid typ enc alpha rs obs
